@@ -183,6 +183,16 @@ pub fn srs_to_lean(srs: &[SR], ranks: &Ranks) -> String {
 }
 fn opt_s(v: Option<i64>) -> String { v.map(|x| x.to_string()).unwrap_or("_".into()) }
 
+/// number of buckets when uninstantiated ranges are shown with all their buckets
+pub fn bucket_count_all(srs: &[SR]) -> u64 {
+    srs.iter().map(|s| match s {
+        SR::Terms { all, size, .. } => all[..(*size).min(all.len())].iter().map(|b| 1 + bucket_count_all(&b.2)).sum(),
+        SR::List(bs, _) => bs.iter().map(|b| 1 + bucket_count_all(&b.2)).sum(),
+        SR::Filter(_, s) => bucket_count_all(s),
+        _ => 0,
+    }).sum()
+}
+
 /// number of buckets of the final result (AggregationResults::get_bucket_count)
 pub fn bucket_count(srs: &[SR]) -> u64 {
     srs.iter().map(|s| match s {
